@@ -547,7 +547,7 @@ fn panic_site(msg: &str) -> usize {
     99
 }
 
-fn one(files: &HashMap<String, String>, main: &str) -> Value {
+fn one(files: &HashMap<String, String>, main: &str, base: Option<&str>) -> Value {
     let main_loc = match Locator::try_from(main) {
         Ok(l) => l,
         Err(e) => return json!({"status": "rejected", "msg": e.to_string()}),
@@ -618,12 +618,28 @@ fn one(files: &HashMap<String, String>, main: &str) -> Value {
         return json!({"status": "unsupported", "why": why});
     }
     let mut doc = Value::Null;
+    let mut doc_base = Value::Null;
     let mut names = Vec::new();
     let result = match std::panic::catch_unwind(std::panic::AssertUnwindSafe(|| oal_compiler::eval::eval(&mods))) {
         Ok(Ok(s)) => {
             let dump = tr.spec(&s);
             for (id, _) in s.refs.iter() {
                 names.push(text_sx(id.as_ref()));
+            }
+            // the document the real Builder makes of this Spec on the given base description: the base as
+            // the CLI reads it (serde_yaml into openapiv3::OpenAPI), re-serialised, and the merged document
+            if let Some(b) = base {
+                doc_base = match serde_yaml::from_str::<openapiv3::OpenAPI>(b) {
+                    Ok(bd) => {
+                        let norm = serde_json::to_string(&bd).unwrap_or_default();
+                        let s2 = s.clone();
+                        match std::panic::catch_unwind(std::panic::AssertUnwindSafe(|| oal_openapi::Builder::new(s2).with_base(bd).into_openapi())) {
+                            Ok(api) => json!({"base": norm, "text": serde_json::to_string(&api).unwrap_or_default()}),
+                            Err(_) => json!({"builder_panic": crate::l_compile::last_panic()}),
+                        }
+                    }
+                    Err(e) => json!({"base_error": e.to_string()}),
+                };
             }
             // the document the real Builder makes of this Spec (no base)
             doc = match std::panic::catch_unwind(std::panic::AssertUnwindSafe(|| oal_openapi::Builder::new(s).into_openapi())) {
@@ -650,7 +666,7 @@ fn one(files: &HashMap<String, String>, main: &str) -> Value {
     let strs_sx = list(tr.strings.iter().map(|s| text_sx(s)).collect());
     let floats: Vec<f64> = tr.floats.iter().map(|b| f64::from_bits(*b)).collect();
     json!({"status": "ok", "prog": prog, "tenv": tenv, "result": result, "strings": tr.strings, "strs_sx": strs_sx,
-           "names_sx": list(names), "floats": floats, "doc": doc, "nmods": locs.len()})
+           "names_sx": list(names), "floats": floats, "doc": doc, "doc_base": doc_base, "nmods": locs.len()})
 }
 
 pub fn run() {
@@ -674,7 +690,8 @@ pub fn run() {
             }
         }
         let main = req["main"].as_str().unwrap_or("file:///main.oal").to_owned();
-        let res = guarded(std::panic::AssertUnwindSafe(|| one(&files, &main)));
+        let base = req["base"].as_str().map(|s| s.to_owned());
+        let res = guarded(std::panic::AssertUnwindSafe(|| one(&files, &main, base.as_deref())));
         writeln!(out, "{}", res).unwrap();
         out.flush().unwrap();
     }
